@@ -405,14 +405,23 @@ def scenRxh (link items obs : String) : Verdict :=
     | some base =>
       let entries := polls.splitOn ","
       let parsed := entries.map fun e =>
-        match e.splitOn "/" with
-        | [r, live, peak, plen] => (r, live.toNat?.getD 0, peak.toNat?.getD 0, plen.toNat?.getD 0)
+        -- the result itself may contain `/` (payload digests): the last three fields are the numbers
+        let parts := e.splitOn "/"
+        match parts.reverse with
+        | plen :: peak :: live :: rrev =>
+          (String.intercalate "/" rrev.reverse, live.toNat?.getD 0, peak.toNat?.getD 0, plen.toNat?.getD 0)
         | _ => (e, 0, 0, 0)
       let a := String.intercalate "," (sts.map (·.1))
       if String.intercalate "," (parsed.map (·.1)) != a then
-        match rxOracle (String.intercalate "," (parsed.map (·.1))) a with
-        | some clause => .prop "C06" clause a
-        | none => .corr a
+        -- the results differ from the model's: the part of C19 that needs no model state is still evaluated on the
+        -- implementation's own numbers — right after a delivered packet a receiver holds what a fresh one holds
+        match parsed.find? (fun (r, live, _, _) => r.startsWith "ok(" && live > base) with
+        | some (r, live, _, _) =>
+          .prop "C19,C06" s!"receiver holds {live - base} bytes more than a fresh one right after delivering a packet ({r})" a
+        | none =>
+          match rxOracle (String.intercalate "," (parsed.map (·.1))) a with
+          | some clause => .prop "C06" clause a
+          | none => .corr a
       else
         -- memory oracle, per poll, against the model's bookkeeping
         let rec check (ps : List (String × Nat × Nat × Nat)) (ss : List (String × Nat)) (_prevAnn : Nat) : Option String :=
@@ -582,8 +591,12 @@ def scenE2e (toks : List String) (obs : String) : Verdict :=
     | some an, some bn, some es, some sd =>
       let a := UInt16.ofNat an
       let b := UInt16.ofNat bn
-      let handlers : List (Nat × Handler) :=
-        (if hs = "-" then [] else hs.toList).mapIdx fun i c => (i, ⟨i, c == 'c', []⟩)
+      -- the handler table is built by the history `hs`: `c` / `o` register a handler (token = order of registration),
+      -- a digit removes that id
+      let table : Proto := (if hs = "-" then [] else hs.toList).foldl (fun (acc : Proto × Nat) ch =>
+          if ch.isDigit then ((acc.1.remove (ch.toNat - 48)).1, acc.2)
+          else ((acc.1.add ⟨acc.2, ch == 'c', []⟩).1, acc.2 + 1)) (Proto.init b [] [], 0) |>.1
+      let handlers : List (Nat × Handler) := table.handlers
       -- what node A puts on the link (C16): everything not addressed to itself, and everything if it is the broadcast node
       let sent := (es.map (encode ⟨0, 0, 0⟩)).filter fun p => p.addr != a || a == BROADCAST
       let polls : Option (List Out) :=
@@ -672,12 +685,44 @@ def judge (inp obs : String) : Verdict :=
   | ["proto", addr, rxq, txq, ops] => scenProto addr rxq txq ops obs
   | _ => .bad "unknown scenario"
 
+/-- which branch of the model a case takes (measured input distribution for the evidence; only the cheap scenarios) -/
+def branchOf (inp : String) : Option String :=
+  match inp.splitOn " " with
+  | ["usart_dec", hex] => (parseBytes hex).map fun bs => "usart_dec:" ++
+      (match fromUsart bs with | .ok f => "ok/dataLen" ++ toString f.dataLen | .err e => "err/" ++ showFErr e | .panic => "panic")
+  | ["can_dec", c] => (parseCan c).map fun cf => "can_dec:" ++
+      (match fromCan cf with | .ok f => (if f.multi then "ok/multi" else "ok/single") | .err e => "err/" ++ showFErr e | .panic => "panic")
+  | ["ev_dec", k, p] =>
+    match (k.drop 1).toString.toNat?.bind kindOfIdx, parsePacket p with
+    | some kd, some pk => some ("ev_dec:k" ++ toString (kindIdx kd) ++ "/" ++
+        (match decode kd pk with | .ok _ => "ok" | .err e => showCErr e | .panic => "panic"))
+    | _, _ => none
+  | ["builder", f0, fs] =>
+    match parseFrame f0, (sepList fs ",").mapM parseFrame with
+    | some a, some l =>
+      (match Builder.new a with
+        | .ok b0 =>
+          let (_, tags) := l.foldl (fun (acc : Builder × List String) f =>
+            match acc.1.addFrame f with
+            | .ok b' => (b', acc.2)
+            | .err e => (acc.1, if acc.2.contains (showBErr e) then acc.2 else acc.2 ++ [showBErr e])
+            | .panic => acc) (b0, [])
+          some ("builder:" ++ (if tags.isEmpty then "all-accepted" else String.intercalate "+" tags))
+        | .err e => some ("builder:new/" ++ showBErr e)
+        | .panic => some "builder:panic")
+    | _, _ => none
+  | _ => none
+
+def bump (l : List (String × Nat)) (k : String) : List (String × Nat) :=
+  if l.any (·.1 == k) then l.map (fun (a, v) => if a == k then (a, v + 1) else (a, v)) else l ++ [(k, 1)]
+
 structure Counts where
   n : Nat := 0
   ok : Nat := 0
   notes : Nat := 0
   bad : Nat := 0
   announced : Option Nat := none
+  branches : List (String × Nat) := []
 
 partial def loop (h : IO.FS.Stream) (c : Counts) (notes : List (String × Nat)) : IO (Counts × List (String × Nat)) := do
   let line ← h.getLine
@@ -689,6 +734,7 @@ partial def loop (h : IO.FS.Stream) (c : Counts) (notes : List (String × Nat)) 
   else
   match l.splitOn " => " with
   | [inp, obs] =>
+    let c := match branchOf inp with | some b => { c with branches := bump c.branches b } | none => c
     match judge inp obs with
     | .ok => loop h { c with n := c.n + 1, ok := c.ok + 1 } notes
     | .note w =>
@@ -703,6 +749,7 @@ partial def loop (h : IO.FS.Stream) (c : Counts) (notes : List (String × Nat)) 
 def main : IO UInt32 := do
   let (c, notes) ← loop (← IO.getStdin) {} []
   for (w, k) in notes do IO.println s!"NOTE {k} {w}"
+  for (b, k) in c.branches do IO.println s!"STAT {k} {b}"
   let ann := match c.announced with | some k => toString k | none => "none"
   IO.println s!"DONE lines={c.n} ok={c.ok} notes={c.notes} bad={c.bad} announced={ann}"
   return (if c.bad == 0 && c.announced == some c.n then 0 else 1)
